@@ -137,6 +137,7 @@ def run(ck):
             ck.fail("a refused append changed the file", inp)
     rescale_layer(ck, 60 if q else 1500)
     refused_inside_session_layer(ck, 20 if q else 400)
+    encoding_errors_layer(ck, 8 if q else 100)
     compressed_layer(ck, 25 if q else 500)
     out = ck.driver(lines)
     bad = None
@@ -200,6 +201,35 @@ def compressed_layer(ck, n_cases):
             k0 = next((i for i in range(min(len(a), len(b))) if a[i] != b[i]), -1)
             ck.fail(f"compressed file after append reads differently from the file written at once (field #{k0}: {a[k0][:60]} vs {b[k0][:60]})", inp)
     lazrs.CHUNK_SIZE = 5
+
+
+def encoding_errors_layer(ck, n_cases):
+    """a file whose header text is not decodable as ASCII/UTF-8 (written by other software), opened for appending with
+    encoding_errors='ignore' as it must be for reading: the session appends and closes like any other"""
+    import laspy
+    for ci in range(n_cases):
+        minor, fmt = ck.rng.choice(fio.PAIRS)
+        n0 = ck.rng.choice([0, 3])
+        las = fio.make_las(ck.rng, minor, fmt, n0)
+        size = las.header.point_format.size
+        b0 = io.BytesIO()
+        las.write(b0)
+        data = bytearray(b0.getvalue())
+        data[26:30] = b"\xff\xfeAB"          # system identifier with undecodable bytes
+        extra = fio.raw_records(ck.rng, size, 2)
+        inp = {"kind": "encoding_errors", "minor": minor, "fmt": fmt, "n0": n0}
+        ck.case(("encerr", minor, fmt, n0, bytes(data[:300])), nontrivial=True)
+        ck.count("append_with_encoding_errors_ignore")
+        buf = io.BytesIO(bytes(data))
+        try:
+            with laspy.open(buf, mode="a", closefd=False, encoding_errors="ignore") as ap:
+                ap.append_points(rec_of(las, extra))
+            back = laspy.open(io.BytesIO(buf.getvalue()), encoding_errors="ignore").read()
+        except Exception as e:
+            ck.fail(f"append session opened with encoding_errors='ignore' on a file with undecodable header text raised {type(e).__name__}: {e}", inp)
+            continue
+        if back.points.array.tobytes() != las.points.array.tobytes() + extra or back.header.point_count != n0 + 2:
+            ck.fail(f"append with encoding_errors='ignore': the file holds {back.header.point_count} / {len(back.points)} points, expected {n0 + 2} (old followed by new)", inp)
 
 
 def refused_inside_session_layer(ck, n_cases):
